@@ -2,6 +2,7 @@ import Girc.Drv.Proto
 import Girc.Drv.EventOps
 import Girc.Drv.PureOps
 import Girc.Drv.RunOps
+import Girc.Drv.ConcOps
 import Girc.Model.Names
 import Girc.Model.Glob
 import Girc.Spec.NameSpec
@@ -26,6 +27,6 @@ def handleBasic (op : String) (args : List String) : Option String :=
   | _, _ => none
 
 def handle (op : String) (args : List String) : Option String :=
-  (handleBasic op args) <|> (handleEvent op args) <|> (handlePure op args) <|> (handleRun op args)
+  (handleBasic op args) <|> (handleEvent op args) <|> (handlePure op args) <|> (handleRun op args) <|> (handleConc op args)
 
 end Girc.Drv
